@@ -577,7 +577,86 @@ def unit_bounded_switch(U):
         K.always_return_list = old
     U.bounded_result("C18.bounded.switch", "the exports do not depend on constants.always_return_list and leave it alone", "one transcript (2 exons, 2 CDS) x both settings x 5 exports", cases, fails)
 
-UNITS = [("bounded.switch", unit_bounded_switch), ("len_sequence", unit_len_sequence), ("sequence.filename", unit_sequence_filename), ("bed12", unit_bed12), ("to_bed12", unit_to_bed12), ("bounded.two_levels", unit_bounded_two_levels)]
+def unit_to_bed12_types(U):
+    """convert.to_bed12 with SEVERAL block featuretypes (child_type a list / tuple): the blocks are ALL children of those
+    types in ascending start order - blockStarts ascending from 0 - however the code obtains them.  children() answers by
+    its contract (C02 / C11): the children whose featuretype is (one of) the requested one(s), ordered as requested."""
+    for form in ("list", "tuple"):
+        it = Interp()
+
+        def run(ctx, form=form):
+            T_start, T_end = z3.Int("t.start"), z3.Int("t.end")
+            a = object.__new__(Attributes)
+            a._d = {"ID": [SStr([Val(z3.String("t.name"), excl=NOTAB)])]}
+            T = blank_feature(seqid=SStr([Val(z3.String("t.seqid"), excl=NOTAB)]), start=SInt(T_start), end=SInt(T_end),
+                              strand=SStr([Val(z3.String("t.strand"), excl=NOTAB)]), score=SStr([Val(z3.String("t.score"), excl=NOTAB)]), attributes=a)
+            kids = []
+            for i, ft in enumerate(("exon", "CDS", "exon")):
+                s, e = z3.Int("b%d.start" % i), z3.Int("b%d.end" % i)
+                ctx.assume(s <= e)
+                kids.append(blank_feature(start=SInt(s), end=SInt(e), featuretype=ft))
+            ctx.assume(z3.And(kids[0].start.e <= kids[1].start.e, kids[1].start.e <= kids[2].start.e))       # b0, b1, b2 is the start order of the universe
+            calls = []
+
+            class DB(object):
+                _pyvc_model = True
+
+                def children(self, f, **kw):
+                    calls.append(kw)
+                    ft = kw.get("featuretype")
+                    want = [ft] if isinstance(ft, str) else (list(ft) if ft is not None else None)
+                    sel = [k for k in kids if want is None or k.featuretype in want]
+                    if kw.get("order_by") not in ("start", ("start",), ["start"]) or kw.get("reverse"):
+                        raise Undecided("children() in another order than by start")
+                    return iter(list(sel))
+            ctx.stash.update(kids=kids, T_start=T_start, calls=calls)
+            ct = ["CDS", "exon"] if form == "list" else ("CDS", "exon")
+            return it.call(CV.to_bed12, [T, DB()], {"child_type": ct})
+
+        def replay(m, form=form):
+            feats = []
+            t = F.Feature(seqid="chr1", featuretype="mRNA", start=10, end=60, strand="-", attributes={"ID": ["t1"]})
+            t.id = "t1"
+            rels = []
+            feats.append(t)
+            for j, (ft, a, b) in enumerate([("exon", 10, 20), ("CDS", 25, 30), ("exon", 41, 60)]):
+                f = F.Feature(seqid="chr1", featuretype=ft, start=a, end=b, strand="-", attributes={"ID": ["e%d" % j]})
+                f.id = "e%d" % j
+                feats.append(f)
+                rels.append(("t1", f.id, 1))
+            db = native_db(feats, rels)
+            ct = ["CDS", "exon"] if form == "list" else ("CDS", "exon")
+            r = CV.to_bed12(db["t1"], db, child_type=ct).rstrip("\n").split("\t")
+            exp = ["chr1", "9", "60", "t1", ".", "-", "10", "60", "0,0,0", "3", "11,6,20", "0,15,31"]
+            return {"inputs": {"child_type": ct, "children": "exon 10-20, CDS 25-30, exon 41-60"}, "expected": exp, "observed": r, "violates": r != exp}
+        for p in U.explore(run, it):
+            st = p.ctx.stash
+            base = "C18.to_bed12.types[%s]" % form
+            if p.kind != "return":
+                U.prove(base + ".noraise#p%d" % p.index, "raises nothing (got %r)" % (p.value,), p.pc, z3.BoolVal(False), {}, replay=replay)
+                continue
+            kids, T_start = st["kids"], st["T_start"]
+            r = SStr.of(p.value)
+            endsnl = bool(r.atoms) and isinstance(r.atoms[-1], Lit) and r.atoms[-1].s.endswith("\n")
+            body = SStr(list(r.atoms[:-1]) + [Lit(r.atoms[-1].s[:-1])]) if endsnl else r
+            parts = split_atoms(body, "\t")
+            goal = z3.BoolVal(False)
+            if len(parts) == 12:
+                sizes, starts = split_atoms(SStr.of(parts[10]), ","), split_atoms(SStr.of(parts[11]), ",")
+
+                def iv(x):
+                    x = SStr.of(x)
+                    c = x.concrete()
+                    if c is not None and c.lstrip("-").isdigit():
+                        return z3.IntVal(int(c))
+                    return x.atoms[0].e if len(x.atoms) == 1 and isinstance(x.atoms[0], IntLit) else None
+                if len(sizes) == 3 and len(starts) == 3 and all(iv(x) is not None for x in sizes + starts):
+                    goal = z3.And(_streq(parts[9], "3"), *([iv(starts[i]) == kids[i].start.e - T_start for i in range(3)] + [iv(sizes[i]) == kids[i].end.e - kids[i].start.e + 1 for i in range(3)]))
+            U.prove(base + ".blocks#p%d" % p.index, "blockCount = number of children of the requested types; blockStarts / blockSizes list them in ascending start order (starts relative to the feature's start)",
+                    p.pc, goal, {"b%d.%s" % (i, w): z3.Int("b%d.%s" % (i, w)) for i in range(3) for w in ("start", "end")}, replay=replay)
+
+
+UNITS = [("to_bed12_types", unit_to_bed12_types), ("bounded.switch", unit_bounded_switch), ("len_sequence", unit_len_sequence), ("sequence.filename", unit_sequence_filename), ("bed12", unit_bed12), ("to_bed12", unit_to_bed12), ("bounded.two_levels", unit_bounded_two_levels)]
 try:
     from standins import C18 as _S
     UNITS = UNITS + list(_S.UNITS)
